@@ -1033,6 +1033,10 @@ def _byte_region_tests(f):
         k_ = 0
         n_ = f.strip(n_)
         while f.k(n_) == "DeclRef" and f.nodes[n_].get("ref") in ("local", "param") and k_ < 6:
+            # only through byte views: the first pointer with an element type of its own is the region
+            tn_ = f.nodes[n_].get("ct", f.nodes[n_].get("t", "")).replace("const ", "").strip()
+            if tn_ not in ("char *", "void *", "unsigned char *"):
+                break
             v_ = f.rd.unique_def_value(n_)
             if v_ is None:
                 break
@@ -1077,21 +1081,6 @@ def region_rule(ctx, P, fns):
             tests.append((i, ops, nd["t"].replace("const ", "").strip()))
             in_tests.update(f.walk(i))
             conds.setdefault(c, []).append((i, nd))
-        if not tests:
-            continue
-        ctx.touch(f)
-        for (i, ops, t) in tests:
-            others = []
-            for j in f.find("Bin"):
-                nd = f.nodes[j]
-                if j in in_tests or nd["op"] != "+" or "*" not in nd.get("t", ""):
-                    continue
-                if frozenset(f.canon(x, subst=False) for x in nd["ch"]) == ops:
-                    others.append((j, nd["t"].replace("const ", "").strip()))
-            if not others:
-                continue
-            bad = [(j, t2) for (j, t2) in others if t2 != t]
-            ctx.check(r, not bad, key(f, "end-of:%s" % "+".join(sorted(ops))[:40]), f.where(i), "the truncation test computes `%s` as `%s` but the region is laid out as `%s` (line %s): the test measures the region in the wrong unit" % (" + ".join(sorted(ops)), t, bad[0][1] if bad else "", f.line(bad[0][0]) if bad else ""))
         # the same test counted in bytes: `nbytes <= end - (char *)region` - the byte count is a multiple of
         # the size of what the region holds, and every element access lies behind the test
         for (c, nside, xnode, pol_pass) in _byte_region_tests(f):
@@ -1120,6 +1109,21 @@ def region_rule(ctx, P, fns):
                 continue
             bad = [u for u in uses if f.cfg.path_exists(paths.pos_of(f, start), lambda e, u=u: e == u or u in f.walk(e), removed_edges=set(paths.guard_edges(f, passed_b)))]
             ctx.check(r2, not bad, key(f, "checked:%s" % pc), f.where(bad[0] if bad else c), "`%s` is read at line %s on a path that has not passed the truncation test at line %s" % (pc, f.line(bad[0]) if bad else "", f.line(c)))
+        if not tests:
+            continue
+        ctx.touch(f)
+        for (i, ops, t) in tests:
+            others = []
+            for j in f.find("Bin"):
+                nd = f.nodes[j]
+                if j in in_tests or nd["op"] != "+" or "*" not in nd.get("t", ""):
+                    continue
+                if frozenset(f.canon(x, subst=False) for x in nd["ch"]) == ops:
+                    others.append((j, nd["t"].replace("const ", "").strip()))
+            if not others:
+                continue
+            bad = [(j, t2) for (j, t2) in others if t2 != t]
+            ctx.check(r, not bad, key(f, "end-of:%s" % "+".join(sorted(ops))[:40]), f.where(i), "the truncation test computes `%s` as `%s` but the region is laid out as `%s` (line %s): the test measures the region in the wrong unit" % (" + ".join(sorted(ops)), t, bad[0][1] if bad else "", f.line(bad[0][0]) if bad else ""))
         # every element access through a tested region pointer lies behind its test
         for c, sums in conds.items():
             for (i, nd) in sums:
